@@ -94,6 +94,10 @@ type Proxy struct {
 	recMu sync.Mutex
 	adds  []agent.AddedKey
 
+	// ListsWhileLocked makes the emulated lock behave like an agent that keeps listing its identities
+	// while locked (hardware-style agents do).
+	ListsWhileLocked bool
+
 	// Latency, when set, delays the answer to a request of the given code (widens race windows).
 	Latency func(code int) time.Duration
 }
@@ -188,6 +192,14 @@ func (p *Proxy) Locked() bool {
 	p.mu.Lock()
 	defer p.mu.Unlock()
 	return p.locked
+}
+
+// ForceUnlock drops the emulated lock behind the client's back (as a restart of the agent or an
+// unlock by another client would).
+func (p *Proxy) ForceUnlock() {
+	p.mu.Lock()
+	p.locked, p.pass = false, nil
+	p.mu.Unlock()
 }
 
 // InFlight reports whether a request is being processed.
@@ -368,10 +380,12 @@ func (p *Proxy) answer(req []byte, code int) []byte {
 	locked := p.locked
 	p.mu.Unlock()
 	if locked {
-		if code == CodeList {
+		if code == CodeList && !p.ListsWhileLocked {
 			return []byte{CodeIdentities, 0, 0, 0, 0}
 		}
-		return []byte{CodeFailure}
+		if code != CodeList {
+			return []byte{CodeFailure}
+		}
 	}
 	if code == CodeExtension {
 		return append([]byte{ExtMark}, req...)
